@@ -286,6 +286,12 @@ EntriesEq(x, y, exact) == Keys(x) = Keys(y) /\ \A k \in Keys(x) : EntryEq(Get(x,
 \* the clauses; each is named so that a rejected round trip says which part of the content moved
 LabelsOK(b, a, exact) == SeqAll(b.labels, a.labels, LAMBDA x, y : EntryEq(x, y, exact))
 MaterialOK(b, a, exact) == EntryEq(b.material, a.material, exact) /\ EntriesEq(b.matprops, a.matprops, exact)
+\* when a same-named material with OTHER properties is registered in the session at import time, the importer may hand
+\* back the registered object enriched with its own extra keys; what the clause then demands is that every property
+\* the document carries arrives with the document's value (the registry itself is not judged)
+MaterialCarried(b, a, exact) ==
+  /\ EntryEq(b.material, a.material, exact)
+  /\ \A k \in Keys(b.matprops) : k \in Keys(a.matprops) /\ EntryEq(Get(b.matprops, k), Get(a.matprops, k), exact)
 BasicsOK(b, a, exact) == EntryEq(b.adsorbate, a.adsorbate, exact)
 TemperatureOK(b, a, exact) == IF exact THEN StrictEq(b.temperature, a.temperature) ELSE CellClose(b.tnum, a.tnum)
 OtherMetaOK(b, a, exact, focus) ==
@@ -326,10 +332,11 @@ ContentEqual(b, a, focus) ==
   /\ BranchOK(b, a) /\ ModelNameOK(b, a) /\ ParamsOK(b, a, TRUE) /\ RangesOK(b, a, TRUE) /\ RmseOK(b, a)
 
 \* failing clauses of a completed round trip; exact = C06, by value = C07
-Failing(b, a, exact, focus, docs) ==
+Failing(b, a, exact, focus, docs, reg) ==
      (IF b.cls = a.cls THEN {} ELSE {"class"})
   \cup (IF LabelsOK(b, a, exact) THEN {} ELSE {"unit_labels"})
-  \cup (IF MaterialOK(b, a, exact) \/ FocusLabel(b, a, focus)[1] = "to_material" THEN {} ELSE {"material"})
+  \cup (IF (IF reg = "same_different" THEN MaterialCarried(b, a, exact) ELSE MaterialOK(b, a, exact))
+           \/ FocusLabel(b, a, focus)[1] = "to_material" THEN {} ELSE {"material"})
   \cup (IF BasicsOK(b, a, exact) THEN {} ELSE {"adsorbate"})
   \cup (IF TemperatureOK(b, a, exact) THEN {} ELSE {"temperature"})
   \cup (IF OtherMetaOK(b, a, exact, focus) \/ FocusLabel(b, a, focus)[1] = "renamed" THEN {} ELSE {"other_metadata"})
@@ -344,7 +351,7 @@ Failing(b, a, exact, focus, docs) ==
              \cup (IF RangesOK(b, a, exact) THEN {} ELSE {"model_ranges"})
              \cup (IF exact /\ ~RmseOK(b, a) THEN {"model_rmse"} ELSE {})
              \cup (IF ~PredictOK(b, a) THEN {"model_predictions"} ELSE {}))
-  \cup (IF exact /\ docs.again # "" /\ docs.again # docs.first THEN {"document_fixpoint"} ELSE {})
+  \cup (IF exact /\ reg # "same_different" /\ docs.again # "" /\ docs.again # docs.first THEN {"document_fixpoint"} ELSE {})
   \cup (IF exact /\ docs.string # "" /\ docs.string # docs.first THEN {"file_vs_string_document"} ELSE {})
 
 IdObliged(b, a, exact, focus) == exact \/ ContentEqual(b, a, focus)
@@ -370,12 +377,16 @@ Judge(q) ==
        [verdict |-> vd, ok |-> vd \in allowed, failing |-> {}, dom |-> dom, vdom |-> vdom, kdom |-> kdom, ldom |-> LayoutDom(q.fmt, q.layout), allowed |-> allowed,
         focus |-> <<vd, q.exc>>, impl |-> impl, id_equal |-> TRUE, id_obliged |-> FALSE,
         agrees |-> Agrees(impl, <<vd, q.exc>>), by_value |-> Agrees(implV, <<vd, q.exc>>), by_key |-> Agrees(implK, <<vd, q.exc>>)]
-  ELSE LET f == Failing(q.before, q.after, exact, q.focus, q.docs)
-           ob == IdObliged(q.before, q.after, exact, q.focus)
+  ELSE LET \* properties only the registered material has (named by the harness that registered it) are set aside:
+           \* they are the registry's, not the document's
+           regkeys == {q.regkeys[i] : i \in 1..Len(q.regkeys)}
+           aft == [q.after EXCEPT !.matprops = SelectSeq(q.after.matprops, LAMBDA e : e.k \notin regkeys)]
+           f == Failing(q.before, aft, exact, q.focus, q.docs, q.reg)
+           ob == q.reg # "same_different" /\ IdObliged(q.before, aft, exact, q.focus)
            ideq == q.before.id = q.after.id
            f2 == IF f = {} /\ ob /\ ~ideq THEN {"identifier"} ELSE f
            vd == IF f2 = {} THEN "preserved" ELSE "changed"
-           fl == FocusLabel(q.before, q.after, q.focus) IN
+           fl == FocusLabel(q.before, aft, q.focus) IN
        [verdict |-> vd, ok |-> vd \in allowed, failing |-> f2, dom |-> dom, vdom |-> vdom, kdom |-> kdom, ldom |-> LayoutDom(q.fmt, q.layout), allowed |-> allowed,
         focus |-> fl, impl |-> impl, id_equal |-> ideq, id_obliged |-> ob,
         agrees |-> Agrees(impl, fl), by_value |-> Agrees(implV, fl), by_key |-> Agrees(implK, fl)]
@@ -408,17 +419,22 @@ RepSeq == <<0, 1, 2>>
 \* magnitude class of the numbers a model carries (parameters, ranges, fit error): of order one / tiny (1e-6..1e-12,
 \* many significant digits: affinity constants with the pressure in Pa) / huge (1e6..1e12) / full float64 precision (1/3)
 \* zero: one parameter exactly 0 (0.0 or the integer 0), fit error 0.0, ranges starting at 0.0
-MagSeq == <<"order_one", "tiny", "huge", "many_digits", "zero">>
+\* out_of_bounds: one parameter outside the model's DEFAULT bounds (below the lower / above the upper one), as a fit
+\* with wider user bounds leaves it; the exported documents do not carry bounds
+MagSeq == <<"order_one", "tiny", "huge", "many_digits", "zero", "out_of_bounds">>
 \* row labels of the table a point isotherm is built from: 0..n-1 / shifted / permuted (after sort_values) /
 \* with gaps and not starting at 0 (after boolean filtering) / text labels
 RowLabSeq == <<"default", "shifted", "permuted", "gaps", "strings">>
+\* session state at import time: is a material of the same name registered in pygaps.MATERIAL_LIST
+\* (none / with the same properties / with other values for shared keys plus keys of its own)
+RegSeq == <<"none", "same_equal", "same_different">>
 LayoutsOf(cls) == CASE cls = "point" -> PointLayouts [] cls = "model" -> ModelLayouts [] OTHER -> <<"na">>
 VCSeqX == VCSeq \o <<"absent">>
 
 P == 29          \* prime >= every dimension size: orthogonal array OA(P^2, P+1, P, 2)
 Pick(seq, d) == seq[(d % Len(seq)) + 1]
 
-\* a row from its 16 digits (each in 0..P-1); dependent dimensions are interpreted per class / format
+\* a row from its 17 digits (each in 0..P-1); dependent dimensions are interpreted per class / format
 Row(fmt, dg) ==
   LET cls == Pick(ClsSeq, dg[1])
       vc == Pick(VCSeqX, dg[7]) IN
@@ -430,9 +446,10 @@ Row(fmt, dg) ==
    sep |-> IF fmt = "csv" THEN Pick(SepSeq, dg[11]) ELSE NA,
    matc |-> Pick(MatSeq, dg[12]), ads |-> Pick(AdsSeq, dg[13]), rep |-> Pick(RepSeq, dg[14]),
    mag |-> IF cls = "model" THEN Pick(MagSeq, dg[15]) ELSE NA,
-   rowlab |-> IF cls = "point" THEN Pick(RowLabSeq, dg[16]) ELSE NA]
+   rowlab |-> IF cls = "point" THEN Pick(RowLabSeq, dg[16]) ELSE NA,
+   reg |-> Pick(RegSeq, dg[17])]
 
-NDims == 16
+NDims == 17
 \* orthogonal array: column k of run (a, b) is a + k*b (+ a seeded shift per column) mod P; any two columns
 \* k1 # k2 run through all P^2 pairs because (k1 - k2) is invertible mod P.  The shift is quadratic in k so
 \* that different seeds give different arrays (a shift linear in k only renames the runs).
@@ -445,7 +462,7 @@ OAStrength2 ==
     Cardinality({<<OADigit(k1, a, b, sd), OADigit(k2, a, b, sd)>> : a \in 0..(P - 1), b \in 0..(P - 1)}) = P * P
 DimSizesFit ==
   \A s \in {ClsSeq, PModeSeq, LBasisSeq, MBasisSeq, TClassSeq, PointLayouts, ModelLayouts, VCSeqX, KCSeq, ModelSeq,
-            TargetSeq, SepSeq, MatSeq, AdsSeq, MagSeq, RowLabSeq} : Len(s) <= P
+            TargetSeq, SepSeq, MatSeq, AdsSeq, MagSeq, RowLabSeq, RegSeq} : Len(s) <= P
 
 \* the other dimensions of a product row vary with the row index (seeded), so products also sweep them
 Varied(fmt, n, seed, fixed) ==
@@ -493,6 +510,11 @@ ProductRowLab(fmt, seed) ==
   [i \in 1..(Len(PointLayouts) * Len(RowLabSeq)) |->
      LET j == i - 1 IN
      Varied(fmt, i, seed, (1 :> 1) @@ (6 :> (j % Len(PointLayouts))) @@ (16 :> (j \div Len(PointLayouts))))]
+\* class x material class x registry state at import time
+ProductReg(fmt, seed) ==
+  [i \in 1..(3 * Len(MatSeq) * Len(RegSeq)) |->
+     LET j == i - 1 IN
+     Varied(fmt, i, seed, (1 :> (j % 3)) @@ (12 :> ((j \div 3) % Len(MatSeq))) @@ (17 :> (j \div (3 * Len(MatSeq)))))]
 \* material class x adsorbate class x class
 ProductMat(fmt, seed) ==
   [i \in 1..(3 * 6 * 3) |->
@@ -510,7 +532,7 @@ ProductCLVK(fmt, seed) ==
 
 Rows(fmt, tier, seed) ==
   LET core == ProductCLV(fmt, seed) \o ProductKV(fmt, seed) \o ProductModels(fmt, seed) \o ProductModelTemp(fmt, seed)
-              \o ProductModelMag(fmt, seed) \o ProductRowLab(fmt, seed) \o Pairwise(fmt, seed) IN
+              \o ProductModelMag(fmt, seed) \o ProductRowLab(fmt, seed) \o ProductReg(fmt, seed) \o Pairwise(fmt, seed) IN
   IF tier = "quick" THEN core
   ELSE core \o ProductUnits(fmt, seed) \o ProductMat(fmt, seed) \o ProductCLVK(fmt, seed + 3) \o ProductKV(fmt, seed + 7)
             \o Pairwise(fmt, seed + 1) \o Pairwise(fmt, seed + 2) \o Pairwise(fmt, seed + 3) \o Pairwise(fmt, seed + 4)
